@@ -298,17 +298,25 @@ def _success_rules(run, F, D, V2):
             and len(n.value.elts) == 2 and isinstance(n.value.elts[0], ast.Constant) and n.value.elts[0].value is True]
     run.floor("R2", "success returns in _do_block_operation", len(rets), 2)
     succ_conds = {}
+    from sa.prov import Prov as _Prov
+    PVs = _Prov(A)
     for r in rets:
-        kind = norm(r.value.elts[1]).split(".")[-1]
         for rn in g.nodes_of(r):
+            kinds = {x.split(".")[-1] for x in PVs.expand_consistent(dbo, D, r.value.elts[1], rn)}
+            kind = next(iter(kinds)) if len(kinds) == 1 else norm(r.value.elts[1]).split(".")[-1]
             facts = F.local(dbo, D, rn)
             want = {"OK_TOTAL": "SUCCESS", "OK_PARTIAL": "PARTIAL"}.get(kind)
             if want is None:
                 run.fail("R2", f"HSM2Dongle._do_block_operation|return {kind}|unknown-success", dbo.loc(r),
                          f"_do_block_operation returns (True, {kind}): not a documented success kind")
                 continue
+            def _left_texts(f):
+                try:
+                    return set(PVs.expand_consistent(dbo, D, f.left, f.node if f.node is not None else rn, stop=("response",))) | {norm(f.left)}
+                except AnalysisError:
+                    return {norm(f.left)}
             hit = [f for f in facts if f.kind == "cmp" and f.op == "==" and
-                   norm(f.right) == f"ops.{want}" and "response" in norm(f.left) and "OFF.OP" in norm(f.left)]
+                   norm(f.right) == f"ops.{want}" and any("response" in t and "OFF.OP" in t for t in _left_texts(f))]
             run.check("R2", bool(hit), f"{kind} returned only under response op == ops.{want}",
                       key=f"HSM2Dongle._do_block_operation|return {kind}|gate", where=dbo.loc(r),
                       message=f"_do_block_operation can return (True, {kind}) without the device's answer "
